@@ -57,7 +57,8 @@ def cli_interleaved_sessions(prop, tag, spec):
     """the program itself: session `<tag>.sav` is quit by a `q` typed while guesses flow (wherever that lands), a second session
     `<tag>.sha1` - a name that differs only after the last dot - is started and ended, then the first is resumed with --load: what the
     two runs of the first session printed, one after the other, must be the uninterrupted stream"""
-    name = f"{tag}rules"
+    # a ruleset kept one directory deeper (`-r group/name` -> Rules/group/name): the name is used as typed, by the first run and by `--load`
+    name = f"{tag}grp/{tag}rules"
     common.install_ruleset(spec, name)
     # the quit session is called `<tag>.sav` (a user who takes -s for a file name): its files are `<tag>.sav.sav` / `<tag>.sav.omn`
     full, _, _ = common.run_cli('pcfg_guesser.py', ['-r', name, '-s', f"{tag}.full"], stdin='devnull', timeout=300)
